@@ -52,6 +52,61 @@ structure World where
   bridge : Bool := false   -- a BridgeManager (message broker) joins the nodes; storage is shared by all nodes
 deriving DecidableEq, Repr
 
+/-! ## connection histories
+
+What a connection is at the time of the command is the result of what happened on it before: handshake attempts
+(`packet_handler_handshake.go handleHandshake` → `ServerAuthHandler.HandleHandshake`), possibly several, possibly
+for different clients, with commands in between; and logins of the same client elsewhere. -/
+
+inductive Step
+  | accept              -- accepted, nothing else
+  | refused             -- a handshake that was refused outright (unknown client)
+  | pending (c : Nat)   -- phase 1 for client `c`: challenge issued, not answered
+  | failed (c : Nat)    -- phase 2 for client `c` answered with a wrong response
+  | login (c : Nat)     -- phase 1 + phase 2 with the right response: authenticated as `c`
+deriving DecidableEq, Repr
+
+/-- one step on one connection: only a successful login changes (sets) the identity; any handshake attempt
+registers the control connection; a refused / pending / failed attempt on an authenticated connection leaves its
+identity as it was -/
+def Conn.step (x : Conn) : Step → Conn
+  | .accept => x
+  | .login c => if c == 0 then (if x.kind == .bare then { x with kind := .unauth } else x) else { x with kind := .auth, cid := c }
+  | _ => if x.kind == .bare then { x with kind := .unauth } else x
+
+def Conn.after (node : Nat) (steps : List Step) : Conn := steps.foldl Conn.step ⟨.bare, 0, node⟩
+
+/-- a successful login of client `c` on connection `i` (node `nd`): every OTHER connection of that node that is
+authenticated as `c` loses its control connection (`handleHandshake`: the old login is removed from the registry) -/
+def kickOthers (i nd c : Nat) : List Conn → Nat → List Conn
+  | [], _ => []
+  | x :: xs, j =>
+    (if j != i && x.kind == .auth && x.cid == c && x.node == nd then { x with kind := .bare, cid := 0 } else x) ::
+      kickOthers i nd c xs (j + 1)
+
+def setAt {α} (xs : List α) (i : Nat) (a : α) : List α := xs.set i a
+
+/-- run connection `i`'s history on top of the connections established so far -/
+def runSteps (i : Nat) : List Step → List Conn → List Conn
+  | [], cs => cs
+  | st :: rest, cs =>
+    match cs[i]? with
+    | none => cs
+    | some x =>
+      let x' := x.step st
+      let cs1 := (match st with
+        | .login c => if c == 0 then cs else kickOthers i x.node c cs 0
+        | _ => cs)
+      runSteps i rest (cs1.set i x')
+
+/-- all connections, in the order their histories ran -/
+def connsOfAux : List (Nat × List Step) → Nat → List Conn → List Conn
+  | [], _, cs => cs
+  | (_, steps) :: rest, i, cs => connsOfAux rest (i + 1) (runSteps i steps cs)
+
+def connsOf (hs : List (Nat × List Step)) : List Conn :=
+  connsOfAux hs 0 (hs.map (fun h => ⟨.bare, 0, h.1⟩))
+
 /-- One command packet.  `m k d` name a mapping / code / domain: index ≥ 0, `-2` = an id that does
 not exist, anything else = empty id.  `g` is the `target_client_id` of the body. -/
 structure Cmd where
